@@ -48,6 +48,8 @@ def run(R):
         r7(R)
     if R.want("C13.R8"):
         r8(R, tus)
+    if R.want("C13.R9"):
+        r9(R, tus)
     if R.want("C13.R5"):
         R.rule("C13.R5", "neighbour windows are computed in int: no difference (column - 1, row - 1, ...) is stored into an unsigned "
                          "variable in localmaxlabel.c or sparse_localmaxlabel / sparse_smooth (a pixel in column 0 or row 0 would see "
@@ -320,6 +322,79 @@ def r4(R, tus):
 # --------------------------------------------------------------------------------------------------
 NotEvaluable = crules.NotEvaluable
 ceval = crules.ceval
+
+
+def r9(R, tus):
+    """sparse_localmaxlabel links the current pixel k with an earlier stored pixel p (iMV[p] = k or iMV[k] = p) only when p is one of
+    its 8-neighbours.  The input is sorted row-major, so p < k means (row distance di = i[p] - i[k] < 0) or (di == 0 and column
+    distance dj = j[p] - j[k] < 0).  The conditions that dominate each link (if / loop conditions, scalars such as ir = i[k] - 1
+    substituted) are evaluated for every admissible (di, dj) in [-3, 0] x [-3, 3]: a link that executes for a pixel two or more rows
+    up, or on the same row but not in the previous column, or on the row above more than one column to the right, joins pixels that
+    are not neighbours.  (The left limit on the row above comes from the cursor that the scan advances, not from a condition, and is
+    not part of this rule.)"""
+    R.rule("C13.R9", "sparse_localmaxlabel: the conditions dominating every uphill link between pixel k and an earlier pixel p admit p only on "
+                     "the row above (column distance <= 1) or in the previous column of the same row - finite case analysis over row / column "
+                     "distances in [-3, 0] x [-3, 3] for sorted input")
+    f = cfront.find_func(tus, "sparse_localmaxlabel", "src/sparse_image.c")
+    cfg = f.cfg
+    defs0 = cfront.scalar_defs(f)
+    pn = [p.name for p in f.params]
+    R.shape(len(pn) >= 6, "C13.R9", f.file, f.name, "the parameters v, i, j, nnz, MV, iMV, ...")
+    V, I, J = pn[0], pn[1], pn[2]
+    IMV = pn[5]
+    links = []
+    for n in cfg.find_nodes(lambda n: n.k == "expr" and n.e is not None and n.e.k == "asg" and n.e.op == "="):
+        lhs, rhs = n.e.a[0], n.e.a[1]
+        if lhs.k == "idx" and estr(lhs.a[0]) == IMV:
+            a, b = estr(lhs.a[1]).replace(" ", "").strip("()"), estr(rhs).replace(" ", "").strip("()")
+            if a != b and rhs.k in ("var", "paren", "cast") and not b.isdigit():
+                links.append((n, a, b))
+    R.shape(len(links) >= 4, "C13.R9", f.file, f.name, "the link stores iMV[p] = k / iMV[k] = p (found %d)" % len(links))
+    # the current pixel is the index of the outer loop: the name that occurs in every link
+    names = [set((a, b)) for _, a, b in links]
+    common = set.intersection(*names)
+    K = None
+    for n in cfg.find_nodes(lambda n: n.k in ("expr", "decl") and n.e is not None and n.e.k == "asg" and n.e.op == "="):
+        l_, r_ = estr(n.e.a[0]).replace(" ", ""), estr(n.e.a[1]).replace(" ", "").strip("()")
+        for x in common:
+            if l_ in common and l_ != x and r_ == "%s-1" % x:      # p = k - 1 : the previous stored pixel of the current pixel k
+                K = x
+    R.shape(K is not None and len(common) == 2, "C13.R9", f.file, f.name, "the current pixel index k (from 'p = k - 1') among %s" % sorted(common))
+    for n, a, b in links:
+        P = b if a == K else a
+        defs = dict(defs0)
+        defs.update(crules.local_defs(cfg, n.id))
+        guards = []
+        PS = (P, "%s-1" % K)        # the scalar definitions substitute p = k - 1
+        mine = {"%s[%s]" % (x, y) for x in (I, J) for y in (K,) + PS}
+        for e, pol in cfg.guards(n.id):
+            e2 = cfront.esubst(e, defs, 4)
+            cells = set(estr(x).replace(" ", "") for x in ewalk(e2) if x.k == "idx")
+            if cells and cells <= mine:
+                guards.append((e2, pol))
+        bad = None
+        try:
+            for di in range(-3, 1):
+                for dj in range(-3, 4):
+                    if di == 0 and dj >= 0:
+                        continue
+                    env = {"%s[%s]" % (I, K): 5, "%s[%s]" % (J, K): 5, "__int32__": True}
+                    for y in PS:
+                        env["%s[%s]" % (I, y)] = 5 + di
+                        env["%s[%s]" % (J, y)] = 5 + dj
+                    if all(bool(ceval(e2, env)) == pol for e2, pol in guards):
+                        neighbour = (di == -1 and dj <= 1) or (di == 0 and dj == -1)
+                        if not neighbour and bad is None:
+                            bad = (di, dj)
+        except NotEvaluable as ex:
+            R.shape(False, "C13.R9", f.file, f.name, "the conditions of the link at line %s as a function of the row / column distance (%s)" % (n.line, ex))
+        R.check(bad is None, "C13.R9", f.file, n.line, f.name, "link %s[%s] = %s under %s" % (IMV, a, b, " && ".join(("" if pol else "!") + estr(e2) for e2, pol in guards)[:120]),
+                "the link executes for an earlier pixel at row distance %s, column distance %s (admissible for sorted input, e.g. the last pixel of a "
+                "row two or more rows up when the rows between are empty): two pixels that are not neighbours are joined, the lower peak "
+                "is merged into the higher one and the number of labels no longer equals the number of local maxima"
+                % (bad if bad else ("-", "-")),
+                desc="%s:%s link %s[%s] = %s only between 8-neighbours" % (f.file, f.name, IMV, a, b))
+    R.floor("C13.R9", 4)
 
 
 def r6(R, tus):
